@@ -7,10 +7,11 @@ from vmon import oracle as orc
 
 DEFAULT_STEPS = [2, 3, 4, 6, 8, 12, 16, 24]
 DEFAULT_VALUES = [4, 6, 8, 9, 12, 16, 18, 24, 36]
-STEPSETS = [None, [6, 12, 24], [4, 8, 16], [3, 6, 12, 24], [12], [2, 4, 8, 16, 32]]
-VALUESETS = [None, [6, 12, 24, 48], [4, 8, 16, 32], [3, 6, 9, 12, 24, 36], [12, 24], [1, 2, 3, 4, 6], [2, 4, 8, 96]]
+STEPSETS = [None, [6, 12, 24], [4, 8, 16], [3, 6, 12, 24], [12], [2, 4, 8, 16, 32], [24, 6, 12], [8, 2, 16, 4]]   # any order
+VALUESETS = [None, [6, 12, 24, 48], [4, 8, 16, 32], [3, 6, 9, 12, 24, 36], [12, 24], [1, 2, 3, 4, 6], [2, 4, 8, 96], [24, 6, 48, 12],
+             [36, 12, 3, 9, 24, 6]]   # any order
 PITCHRANGES = [(21, 108), (60, 72), (0, 127), (60, 60), (36, 47)]
-SIGS_OK = [(4, 4), (3, 4), (6, 8), (2, 4), (5, 4), (2, 2), (7, 8), (12, 8), (9, 8), (3, 8), (2, 8), (16, 8), (1, 4)]
+SIGS_OK = [(8, 8), (4, 4), (3, 4), (6, 8), (2, 4), (5, 4), (2, 2), (7, 8), (12, 8), (9, 8), (3, 8), (2, 8), (16, 8), (1, 4)]
 BINS_REGULAR = [n for n in range(1, 128) if orc.regular_bins(n)]
 BINS_IRREGULAR = [n for n in range(1, 140) if not orc.regular_bins(n)]
 _CACHE = {}
